@@ -610,6 +610,80 @@ func TestC02(t *testing.T) {
 		}
 		s.St.Exhaust("multi-chunk files (64K, 64K+1, 128K, 128K+5): flips and truncations at every offset within 20 bytes of each chunk boundary, the nonce and the end; extensions x read modes", int64(n))
 	}, check)
+	// every sequence of up to three chunks over an alphabet of the file's own
+	// data pieces (full, full, short tail), a short cut of a full piece and the
+	// empty piece, each under every counter 0..3 and either final flag, sealed
+	// with the real key: accepted exactly when the specification's chunking
+	// rule accepts it
+	pbt.Each(s, "chunk-sequences", func(yield func(c02Case)) {
+		l := 2*chunk + 5
+		pieces := [][2]int{{0, chunk}, {chunk, chunk}, {2 * chunk, 5}, {0, 0}, {0, 100}}
+		var alpha, narrow []chunkSpec
+		for _, pc := range pieces {
+			for ctr := uint64(0); ctr < 4; ctr++ {
+				for _, fin := range []bool{false, true} {
+					alpha = append(alpha, chunkSpec{Counter: ctr, Final: fin, Off: pc[0], Len: pc[1]})
+				}
+			}
+		}
+		n := 0
+		emit := func(seq []chunkSpec) {
+			if s.Mine(n) {
+				yield(c02Case{PlainLen: l, PlainSeed: 12, Edit: c02Edit{Kind: "chunking", Chunks: append([]chunkSpec{}, seq...)}, Plan: []int{-1}, Delivery: whole})
+			}
+			n++
+		}
+		for _, a := range alpha {
+			emit([]chunkSpec{a})
+			for _, b := range alpha {
+				emit([]chunkSpec{a, b})
+			}
+		}
+		// length three: in the quick tier only counters equal to the position or one more
+		third := func(pos int) []chunkSpec {
+			if s.Thorough() {
+				return alpha
+			}
+			narrow = narrow[:0]
+			for _, a := range alpha {
+				if a.Counter == uint64(pos) || a.Counter == uint64(pos)+1 {
+					narrow = append(narrow, a)
+				}
+			}
+			return append([]chunkSpec{}, narrow...)
+		}
+		a0, a1, a2 := third(0), third(1), third(2)
+		for _, a := range a0 {
+			for _, b := range a1 {
+				for _, c := range a2 {
+					emit([]chunkSpec{a, b, c})
+				}
+			}
+		}
+		s.St.Exhaust(fmt.Sprintf("every sequence of 1..3 chunks over {two full pieces, the 5-byte tail, a 100-byte cut, the empty piece} x counters 0..3 x final flag, sealed under the file's key (length three: %d x %d x %d symbols)", len(a0), len(a1), len(a2)), int64(n))
+	}, check)
+	// and without the key: every sequence of up to three pieces over the file's
+	// own sealed chunks, their truncations, and chunks of other files
+	pbt.Each(s, "chunk-sequences", func(yield func(c02Case)) {
+		alpha := []progStep{{Src: "own", Idx: 0}, {Src: "own", Idx: 1}, {Src: "own", Idx: 2}, {Src: "own", Idx: 0, Cut: 1}, {Src: "own", Idx: 2, Cut: 1}, {Src: "own", Idx: 2, Cut: 16}, {Src: "foreign", Idx: 0}, {Src: "foreign", Idx: 2}, {Src: "sibling", Idx: 2}, {Src: "garbage", Idx: 2}}
+		n := 0
+		emit := func(seq []progStep) {
+			if s.Mine(n) {
+				yield(c02Case{PlainLen: 2*chunk + 5, PlainSeed: 12, Edit: c02Edit{Kind: "prog", Prog: append([]progStep{}, seq...)}, Plan: []int{-1}, Delivery: whole})
+			}
+			n++
+		}
+		for _, a := range alpha {
+			emit([]progStep{a})
+			for _, b := range alpha {
+				emit([]progStep{a, b})
+				for _, c := range alpha {
+					emit([]progStep{a, b, c})
+				}
+			}
+		}
+		s.St.Exhaust("every sequence of 1..3 pieces over the file's three sealed chunks, three truncations of them, chunks sealed under another file key or another nonce, and random bytes", int64(n))
+	}, check)
 	// more than 256 chunks: the chunk counter has to carry into its second byte
 	pbt.Each(s, "edits-big", func(yield func(c02Case)) {
 		if s.Shard != 0 {
